@@ -98,7 +98,7 @@ def _norm_key(k):
     return re.sub(r"[&*]|\.\&|\.\*", "", k or "").replace("..", ".").strip(".")
 
 
-def _index_drawn_from_len_range(F, b, defs, get_call):
+def _index_drawn_from_len_range(F, b, defs, get_call, _depth=0):
     """`x.get(i).unwrap()` cannot fail when `i` is drawn from `0..x.len()` OF THE SAME `x`: either by a loop over that range in this
     body, or - in a closure - because the closure is handed to an iterator adaptor on such a range in the enclosing function."""
     if len(get_call["args"]) < 2 or not mir.is_place_op(get_call["args"][1]) or not mir.is_place_op(get_call["args"][0]):
@@ -121,6 +121,27 @@ def _index_drawn_from_len_range(F, b, defs, get_call):
     if root.startswith("call:") and hir.last(root[5:]) == "next" and "Range" in root:
         lr = len_receivers(b, defs, idx[0])
         return bool(lr) and all(k == recv_key for k in lr)
+    if root.startswith("arg") and "{closure" not in b.path and _depth < 2 and recv_key.startswith("arg") and root[3:].isdigit():
+        # a helper `fn h(&self, i, ..)` that indexes its own receiver with a parameter: decided at its call sites - every caller in the
+        # crate must hand over an index drawn from 0..len() of the very object it passes as the receiver
+        ri = int(re.sub(r"\D.*$", "", recv_key[3:]) or 0)
+        ii = int(root[3:])
+        sites = []
+        for cb in F.all_bodies():
+            if not cb.mir or cb.path == b.path:
+                continue
+            for bi, t in mir.calls(cb):
+                if b.path in (mir.callee(t), mir.callee_def(t)):
+                    sites.append((cb, t))
+        if not sites or ri < 1:
+            return False
+        for cb, t in sites:
+            if len(t["args"]) < max(ri, ii):
+                return False
+            fake = {"args": [t["args"][ri - 1], t["args"][ii - 1]]}
+            if not _index_drawn_from_len_range(F, cb, mir.Defs(cb), fake, _depth + 1):
+                return False
+        return True
     if root.startswith("arg") and "{closure" in b.path:
         parent = F.body(b.path.rsplit("::{closure", 1)[0])
         if parent is None or not parent.mir:
